@@ -245,6 +245,9 @@ func checkPanic(c PanicCase) error {
 				if n := completed[k].Load(); n > 1 {
 					return fmt.Errorf("key %d: the constructor panicked on its first invocation while %d goroutines were waiting in Get(%d) (late Get: %v); afterwards %d constructions of that key completed (invocations: %d): not exactly once per key", k, c.Waiters, k, c.Late, n, cons[k].Load())
 				}
+				if completed[k].Load() == 0 && len(rs) > 0 {
+					return fmt.Errorf("key %d: %d callers of Get(%d) received a result (%v) although no construction of that key ever completed (the constructor panicked on its only invocation): every caller receives the single constructed result, and there is none", k, len(rs), k, rs[0])
+				}
 				for _, r := range rs {
 					if r != rs[0] {
 						return fmt.Errorf("key %d: callers of Get(%d) received different results after the constructor had panicked once (invocations: %d)", k, k, cons[k].Load())
